@@ -29,6 +29,7 @@ def setup(ctx):
 def structured(ctx, classes, n_schema, gen, per_class):
     cases = []
     r = gen.r
+    prev = None
     for idx in range(n_schema):
         cls = classes[idx]
         from ..values import describe as _describe
@@ -36,11 +37,21 @@ def structured(ctx, classes, n_schema, gen, per_class):
         for want_default in [None] * per_class + ([True, False] if has_tags else []):
             val = gen.entity(cls, want_default=want_default)
             inst = to_py(cls, val)
+            history = None
+            if prev is not None and r.random() < 0.12:
+                # the property quantifies over every process state: put a FAILED operation of another
+                # class in front (an encode that raises part-way / a decode of truncated bytes)
+                history = perturb(classes, prev, r)
+                gen.count("history:" + history["kind"])
             enc = cc.impl_encode(cls, inst)
             tail = bytes(r.getrandbits(8) for _ in range(r.choice([0, 0, 1, 3])))
             data = (enc[1] if enc[0] == "ok" else enc[2]) + tail
             dec = cc.impl_decode(cls, data)
             case = {"cls": idx, "val": val, "enc": enc, "input": data, "dec": dec, "tail": tail}
+            if history:
+                case["history"] = history
+            if enc[0] == "ok":
+                prev = (idx, val, enc[1])
             # the property, evaluated on the implementation with Python's own equality
             ok = False
             why = None
@@ -68,6 +79,52 @@ def structured(ctx, classes, n_schema, gen, per_class):
     return cases
 
 
+def corrupt_last_leaf(v):
+    """an ill-typed variant of a value: its LAST integer/string leaf becomes an integer too large for any
+    wire type, so an encode fails part-way, after earlier writes.  None if there is no such leaf."""
+    paths = []
+
+    def walk(x, p):
+        if x[0] in ("arr", "ent"):
+            for k, y in enumerate(x[1]):
+                walk(y, p + [k])
+        elif x[0] in ("int", "str"):
+            paths.append(p)
+    walk(v, [])
+    if not paths:
+        return None
+
+    def rebuild(x, p):
+        if not p:
+            return ("int", 2**70)
+        items = list(x[1])
+        items[p[0]] = rebuild(items[p[0]], p[1:])
+        return (x[0], items)
+    return rebuild(v, paths[-1])
+
+
+def perturb(classes, prev, r, kind=None):
+    """run a failing operation on the implementation; returns its description (replayable)"""
+    from ..values import to_json
+
+    idx, val, data = prev
+    cls = classes[idx]
+    kind = kind or r.choice(["failed-encode", "failed-decode"])
+    if kind == "failed-encode":
+        bad = corrupt_last_leaf(val)
+        if bad is None:
+            kind = "failed-decode"
+        else:
+            try:
+                out = cc.impl_encode(cls, to_py(cls, bad))
+            except Exception as e:  # noqa  (construction of the ill-typed instance itself may refuse)
+                out = ("err", cc.err_name(e))
+            return {"kind": kind, "cls": idx, "val": to_json(bad), "outcome": out[1] if out[0] != "ok" else "ok"}
+    cut = data[: max(0, len(data) - 1 - r.randrange(3))]
+    out = cc.impl_decode(cls, cut)
+    return {"kind": kind, "cls": idx, "input": cut.hex(), "outcome": out[1] if out[0] != "ok" else "ok"}
+
+
 def corpus_cases(prop):
     p = common.VERIF / "corpus" / f"{prop}.jsonl"
     if not p.exists():
@@ -83,7 +140,7 @@ def cls_name(classes, i):
 def describe_case(classes, c):
     j = cc.case_json(c)
     j["class"] = cls_name(classes, c["cls"])
-    for k in ("c01_why", "mutation", "why"):
+    for k in ("c01_why", "mutation", "why", "history"):
         if c.get(k):
             j[k] = c[k]
     return j
@@ -109,7 +166,7 @@ def distribution(cases, classes):
 def mutate(r, data: bytes):
     """One biased mutation of a valid encoding; returns (bytes, description)."""
     n = len(data)
-    kind = r.choice(["trunc", "over", "over", "insert", "delete", "flipbit", "lenbias", "random", "multi"])
+    kind = r.choice(["trunc", "over", "over", "insert", "delete", "flipbit", "lenbias", "random", "multi", "bigvarint"])
     b = bytearray(data)
     if kind == "trunc" or n == 0:
         k = r.randrange(0, n + 1) if n else 0
@@ -139,6 +196,14 @@ def mutate(r, data: bytes):
         if p + 1 < n and r.random() < 0.5:
             b[p + 1] = r.choice([0xFF, 0x7F, 0x80])
         return bytes(b), f"lenbias@{p}"
+    if kind == "bigvarint":
+        # a maximal-length varint (length prefix / count / tag near 2^35 or 2^31) at some position
+        p = r.randrange(n)
+        pat = r.choice([b"\xff\xff\xff\xff\x7f", b"\xff\xff\xff\xff\x08", b"\xff\xff\xff\xff\x0f", b"\x80\x80\x80\x80\x08",
+                        b"\xff\xff\xff\xff\x07", b"\x81\x80\x80\x80\x10", b"\xff\xff\xff\xff\xff", b"\x7f\xff\xff\xff", b"\x80\x00\x00\x00"])
+        if r.random() < 0.5:
+            return bytes(b[:p] + pat + b[p + len(pat):]), f"bigvarint-over@{p}"
+        return bytes(b[:p] + pat + b[p:]), f"bigvarint-insert@{p}"
     if kind == "multi":
         desc = []
         for _ in range(r.randint(2, 4)):
